@@ -275,9 +275,11 @@ __get_bdays(unsigned int y, unsigned int m)
  */
 	unsigned int md = __get_mdays(y, m);
 
-	/* rd should not overflow */
-	assert((signed int)md - 28 >= 0);
-	
+	if (UNLIKELY(md < 28U)) {
+		/* not a month (0 or beyond December), no business days then */
+		return 0U;
+	}
+
 	unsigned int rd = (unsigned int)(md - 28U);
 	dt_dow_t m01wd;
 	dt_dow_t m28wd;
